@@ -357,7 +357,9 @@ def load_known(prop):
         return []
     with open(fn) as f:
         data = json.load(f)
-    return [k for k in data.get("findings", []) if k.get("property") == prop and k.get("status") == "open"]
+    # a finding tied to a verification unit is the same finding in every property whose check includes that unit;
+    # findings tied to a bounded stand-in belong to the property they were recorded for
+    return [k for k in data.get("findings", []) if k.get("status") == "open" and (k.get("property") == prop or k.get("function"))]
 
 
 def match_known(findings, r, ob):
